@@ -16,7 +16,8 @@ def write(pid, name, comment, lines):
     print(pid, name, len(lines), "lines")
 
 
-FLAVOURS = ["V", "I", "A", "TV", "TI", "TA"]
+FLAVOURS = ["V", "I", "A", "TV", "TI", "TA", "AV", "TAV"]
+VOIDF = ("V", "TV", "AV", "TAV")
 
 
 def c12():
@@ -27,7 +28,7 @@ def c12():
             for how in ("conn", "slot", "signal"):
                 G = "G%d" % g
                 L.append("newG %s %s" % (G, fl))
-                ty = "V" if fl in ("V", "TV") else "I"
+                ty = "V" if fl in VOIDF else "I"
                 if how == "slot":
                     for i, b in enumerate(pattern):
                         L += ["mkS S%d %s fn:%d" % (i, ty, i + 1)] + (["blockS S%d 1" % i] if b else []) + ["conn C%d %s S%d" % (i, G, i), "delS S%d" % i]
@@ -56,7 +57,7 @@ def c12():
 def c13():
     L = []
     strats = ["sum", "twice", "rev", "never", "postinc", "stop20", "stop60", "wdid", "wdidxd", "wcidcxd", "wiixdd", "wdddi", "wxdidix"]
-    for fl in ("A", "TA", "I", "TI"):
+    for fl in ("A", "TA", "I", "TI", "AV", "TAV"):
         for pat in itertools.product("vbi", repeat=3):      # valid / blocked / invalidated
             L += ["newG G0 %s" % fl, "newT T0"]
             for i, k in enumerate(pat):
@@ -69,8 +70,10 @@ def c13():
             # invalid slots: disconnect them inside an emission so that they stay as invalid positions? no: outside
             # an emission they are erased; keep a body-free variant: invalidate now (erased) ...
             L.append("delT T0")
-            if fl in ("A", "TA"):
+            if fl in ("A", "TA", "AV", "TAV"):
                 for st in strats:
+                    if fl in ("AV", "TAV") and st.startswith("stop"):
+                        continue
                     L.append("emit G0 3 %s" % st)
             else:
                 L += ["emit G0 3", "emit G0 4"]
@@ -78,8 +81,10 @@ def c13():
     write("C13", "matrix_acc.prog", "accumulated/value flavours x valid/blocked/invalidated pattern of three slots x every strategy", L)
     # invalid positions that are still in the range: slots disconnected by an earlier slot of the same emission
     L = ["body 1", "  disc C1", "end", "body 3", "  blockC C2 1", "  blockC C0 1", "end"]
-    for fl in ("A", "TA"):
+    for fl in ("A", "TA", "AV", "TAV"):
         for st in strats:
+            if fl in ("AV", "TAV") and st.startswith("stop"):
+                continue
             L += ["newG G0 %s" % fl, "connfn C0 G0 fn:1", "connfn C1 G0 fn:2", "connfn C2 G0 fn:4", "emit G0 2 %s" % st, "size? G0", "delG G0"]
             L += ["newG G0 %s" % fl, "connfn C0 G0 fn:3", "connfn C1 G0 fn:2", "connfn C2 G0 fn:4", "emit G0 2 %s" % st, "emit G0 2 %s" % st, "delG G0"]
     write("C13", "matrix_acc_reentrant.prog", "a slot disconnects / blocks later (and earlier) positions during the accumulator's walk, every strategy", L)
